@@ -367,6 +367,22 @@ def valuation_formulas(ck, an, want: set):
                         branch_vals[lit] = (sub.st.locals.get(tgt), n)
     price_names = [d.var for d in fa.rd.defs if d.kind == "assign" and isinstance(d.value, ast.IfExp) and "bid_price" in ast.unparse(d.value)]
     pn = price_names[0] if price_names else "liq_price"
+    # which side of the book values the position: a long (quantity > 0; >= 0 is the same under the non-flat guard) is sold at the bid, a short bought back at the ask
+    side_defs = [d for d in fa.rd.defs if d.var == pn and d.kind == "assign"]
+    qsym = fa.sym.ev(ast.Name(id=qvar, ctx=ast.Load()), side_defs[0].node) if side_defs else None
+    ok_side, got_side = False, [ast.unparse(d.value) for d in side_defs]
+    if len(side_defs) == 1 and isinstance(side_defs[0].value, ast.IfExp) and qsym is not None:
+        ie = side_defs[0].value
+        c = fa.sym.cmp(ie.test)
+        b, o = fa.sym.canon(ie.body), fa.sym.canon(ie.orelse)
+        if c[0] == "rel" and c[1] in ("<", "<="):
+            book = f"self.exchange[{fa.sym.canon(ast.Name(id=cvar, ctx=ast.Load()), side_defs[0].node)}]"
+            if c[4] == -qsym:      # quantity > 0 / >= 0
+                ok_side = b == f"{book}.bid_price" and o == f"{book}.ask_price"
+            elif c[4] == qsym:     # quantity < 0 / <= 0
+                ok_side = b == f"{book}.ask_price" and o == f"{book}.bid_price"
+    ck.check(ok_side, "SIGN", "S6.valuation-side", subj, fa.loc(loop), "a long position is valued at the bid and a short one at the ask of its own contract's book (threshold exactly 0)",
+             f"the valuation price is {got_side}: not `bid if quantity >= 0 else ask` of the contract's own book", construct="liq_price = bid if quantity >= 0 else ask")
     q, price = Poly.atom(qvar), Poly.atom(pn)
     mult = Poly.atom(f"{cvar}.multiplier")
     creq = Poly.atom(f"{cvar}.cash_requirement")
